@@ -27,7 +27,7 @@ def rule(tier):
             "been suppressed); distinct by digest of sources + file")
 
 
-def near_miss_section(rng, nonce, prog):
+def near_miss_section(rng, nonce, prog, focus=()):
     """A section that names a real type / function / variable of the program but carries one property that this very
     entity contradicts (wrong kind of type, wrong kind of declaration, reference access in C, a version it does not have ...)."""
     z = "zz%sq" % nonce
@@ -58,13 +58,17 @@ def near_miss_section(rng, nonce, prog):
         c += ["[suppress_function]\n  name = %s" % v, "[suppress_function]\n  symbol_name = %s" % v,
               "[suppress_variable]\n  name = %s\n  type_name = %s_t" % (v, z),
               "[suppress_variable]\n  name = %s\n  symbol_version = VERS_%s" % (v, z.upper())]
+    # half of the time a section about something that did change in this pair (there a wrong match is visible)
+    hot = [x for x in c if any(("= %s\n" % n) in x + "\n" or ("= ^%s$" % n) in x for n in focus)]
+    if hot and rng.random() < 0.7:
+        return rng.choice(hot)
     return rng.choice(c) if c else None
 
 
-def gen_section(rng, nonce, prog=None):
+def gen_section(rng, nonce, prog=None, focus=()):
     z = "zz%sq" % nonce
-    if prog is not None and rng.random() < 0.4:
-        sec = near_miss_section(rng, nonce, prog)
+    if prog is not None and rng.random() < 0.5:
+        sec = near_miss_section(rng, nonce, prog, focus)
         if sec:
             return sec
     kind = rng.choice(["suppress_type", "suppress_function", "suppress_variable", "suppress_file"])
@@ -96,13 +100,23 @@ def case(ctx, i):
     rng = ctx.rng(i)
     r = core.CaseResult()
     d = ctx.casedir(i)
-    pr, why = pairs.make_pair(ctx, rng, d, mutate.MIXED, nmut=rng.randint(1, 4))
+    # union members may be mutated too here: whatever the change, the two runs must agree
+    mutate.STRUCTS_ONLY = False
+    try:
+        pr, why = pairs.make_pair(ctx, rng, d, mutate.MIXED, nmut=rng.randint(1, 4))
+    finally:
+        mutate.STRUCTS_ONLY = True
     if pr is None:
         return r.skip(why)
     nonce = "%04x" % rng.randrange(16 ** 4)
     while nonce == pr.p.nonce:
         nonce = "%04x" % rng.randrange(16 ** 4)
-    text = "\n\n".join(gen_section(rng, nonce, pr.p) for _ in range(rng.randint(1, 6))) + "\n"
+    focus = set()
+    for e in pr.expects:
+        if e.type_name and ":" in e.type_name:
+            focus.add(e.type_name.split(":", 1)[1])
+        focus.update(e.affected[:2])
+    text = "\n\n".join(gen_section(rng, nonce, pr.p, focus) for _ in range(rng.randint(1, 6))) + "\n"
     f = os.path.join(d, "none.suppr")
     open(f, "w").write(text)
     what = "+".join(e.kind for e in pr.expects) + " " + wl.describe_cfg(pr.cfg)
